@@ -3,6 +3,6 @@
 name=$1; script=$2; prop=$3; shift 3
 tmp=$(mktemp -d /tmp/cjet-port-XXXXXX); mkdir -p $tmp/repo $tmp/out; cp -r /repo/src /repo/cmake $tmp/repo/
 python3 $script $tmp/repo || { echo "EDIT-FAILED"; rm -rf $tmp; exit 3; }
-(cd $tmp/repo && for f in $(cd /repo && git ls-files src | grep -v tests); do cmp -s /repo/$f $f || diff -u /repo/$f $f; done) > /verif/seeded/$name/patch_ported_to_current_tree.diff
+(cd $tmp/repo && for f in $(cd /repo && git ls-files src | grep -v tests); do cmp -s /repo/$f $f || diff -u --label a/$f --label b/$f /repo/$f $f; done) > /verif/seeded/$name/patch_ported_to_current_tree.diff
 VERIF_REPO=$tmp/repo VERIF_OUT=$tmp/out python3 /verif/vc/driver.py $prop "$@" 2>/dev/null | grep -a "VIOLATION\|INFRA-ERROR prop\|^OK" | sed 's/.*obligation=//' | cut -c1-110 | head -4
 rm -rf $tmp
